@@ -118,7 +118,7 @@ def body(ctx):
                 else:
                     bits, os_ = ctx.rng.getrandbits(NF) | ctx.rng.getrandbits(NF), ctx.rng.choice(OS_STATES)
                 a, b = ctx.rng.randrange(1000), ctx.rng.randrange(1000)
-                plan.append("disp L%d - 0 %s %s - -" % (i, cfgrow(bits, os_, j & 1), bytes([a & 255, a >> 8, b & 255, b >> 8]).hex()))
+                plan.append("disp L%d - 0 %s %s - -" % (i, cfgrow(bits, os_, j & 1), bytes([a & 255, a >> 8, b & 255, b >> 8, (i + j) % 3]).hex()))
         # the default list (supported_architectures) under injected availability: all, none, every prefix of the extension chain, random
         chain = [0, 1, 2, 3, 4, 6, 5, 8, 9, 10, 11, 12, 13, 16, 17, 18, 19, 7, 14, 15]
         acc, dcfg = 0, [(full, 0b1111), (0, 0b1111), (full, 0b0000), (full, 0b0111), (full, 0b0011)]
@@ -130,7 +130,7 @@ def body(ctx):
             dcfg.append((ctx.rng.getrandbits(NF) | ctx.rng.getrandbits(NF), ctx.rng.choice(OS_STATES)))
         for j, (bits, os_) in enumerate(dcfg):
             a, b = ctx.rng.randrange(1000), ctx.rng.randrange(1000)
-            plan.append("disp Ldef - 0 %s %s - -" % (cfgrow(bits, os_, j & 1), bytes([a & 255, a >> 8, b & 255, b >> 8]).hex()))
+            plan.append("disp Ldef - 0 %s %s - -" % (cfgrow(bits, os_, j & 1), bytes([a & 255, a >> 8, b & 255, b >> 8, j % 3]).hex()))
     ctx.log("plan: %d lines, %d dispatch lists" % (len(plan), len(lists)))
     pl = os.path.join(ctx.work, "c15.plan")
     with open(pl, "w") as f:
@@ -141,6 +141,9 @@ def body(ctx):
     with open(out) as f:
         for line in f:
             e = json.loads(line)
+            if e["k"] == "disp":
+                e["scat"] = e["r"][-1]          # the value category the functor observed (harness: last byte)
+                e["r"] = e["r"][:-1]
             if e["k"] == "disp" and e["op"] == "Ldef":
                 n = e["r"][40]
                 e["list"] = e["r"][41:41 + n]
